@@ -14,6 +14,8 @@ import numpy as np
 
 import pennylane as qp
 
+import json
+
 from . import bridge, lib, tapeeval
 from .codec import OffLattice, encode_op
 from .paulis import to_gd
@@ -328,6 +330,22 @@ def float_record(op, wpos):
     return dict(rec(op.name, w, [], x), fp=[float(np.real(qp.math.unwrap([d])[0])) for d in op.data])
 
 
+def encode_one(op, wpos, M):
+    """codec.encode_op plus the power classes whose name is not of the form Pow(...) (Identity**z in this tree)."""
+    if type(op).__name__ in ("PowOperation", "Pow", "PowOpObs") and hasattr(op, "base") and not op.name.startswith("Pow("):
+        z = op.z
+        if not float(z).is_integer():
+            raise OffLattice(f"non-integer power {z}")
+        r = encode_one(op.base, wpos, M)
+        r["mods"] = r["mods"] + [{"t": "pow", "z": int(z)}]
+        return r
+    return encode_op(op, wpos, M)
+
+
+def encode_exact(ops, wpos, M):
+    return [r for r in (encode_one(op, wpos, M) for op in ops) if r is not None]
+
+
 def encode_ops_mixed(ops, wpos, M):
     """-> (exact records | None, bridge records).  exact is None when some parameter is off the lattice."""
     exact, flt, ok = [], [], True
@@ -335,7 +353,7 @@ def encode_ops_mixed(ops, wpos, M):
         if op.name in ("Barrier", "Snapshot"):
             continue
         try:
-            r = encode_op(op, wpos, M)
+            r = encode_one(op, wpos, M)
             if r is not None:
                 exact.append(r)
                 flt.append(r)
@@ -464,3 +482,61 @@ def sparse_rows(A, b):
         rows.append(row)
         offs.append(g)
     return rows, offs
+
+
+# ------------------------------------------------------------------------------------------------ evaluation pool
+class EvalPool:
+    """TapeEval requests, one per distinct (n, operation records); tapes that share their operations share the evaluation."""
+
+    def __init__(self):
+        self.key, self.items = {}, []
+
+    def add(self, n, ops, words, pws):
+        k = json.dumps([n, ops])
+        if k not in self.key:
+            self.key[k] = len(self.items)
+            self.items.append({"n": n, "ops": ops, "words": [], "pws": [], "ws": set(), "ps": set()})
+        it = self.items[self.key[k]]
+        for w in words:
+            if tuple(w) not in it["ws"]:
+                it["ws"].add(tuple(w))
+                it["words"].append(tuple(w))
+        for w in pws:
+            if tuple(w) not in it["ps"]:
+                it["ps"].add(tuple(w))
+                it["pws"].append(tuple(w))
+        return self.key[k]
+
+    def run(self, pid, M_):
+        tc = [{"n": it["n"], "ops": it["ops"], "meas": tlc_requests(it["words"], it["pws"], True)} for it in self.items]
+        res, stats = tapeeval.evaluate(pid, tc, M_, raw=True)
+        self.ev = [Exact(it["words"], it["pws"], r["meas"], M_, True) for it, r in zip(self.items, res)]
+        return stats
+
+
+def pl_result(descs, evs, wpos, n, batched):
+    vals = []
+    for d in descs:
+        per = [value(d, ev, wpos, n) for ev in evs]
+        vals.append(np.stack([np.asarray(p) for p in per]) if batched else per[0])
+    return tuple(vals) if len(vals) != 1 else vals[0]
+
+
+def same(got, exp, nmeas):
+    g = list(got) if nmeas != 1 and isinstance(got, (tuple, list)) else [got]
+    e = list(exp) if nmeas != 1 else [exp]
+    if nmeas != 1 and (not isinstance(got, (tuple, list)) or len(g) != len(e)):
+        return False, "result-structure", 0
+    for i, (a, b) in enumerate(zip(g, e)):
+        try:
+            a = np.asarray(qp.math.toarray(a) if not isinstance(a, (float, int, complex, np.ndarray, np.generic)) else a, dtype=complex)
+        except Exception:  # noqa: BLE001
+            return False, "result-structure", i
+        b = np.asarray(b, dtype=complex)
+        if a.shape != b.shape:
+            if a.size == b.size and np.allclose(a.reshape(-1), b.reshape(-1), atol=1e-8, rtol=0):
+                return False, "result-shape", i
+            return False, "result-value", i
+        if not np.allclose(a, b, atol=1e-8, rtol=0):
+            return False, "result-value", i
+    return True, "", 0
